@@ -172,12 +172,55 @@ class Store:
         return v
 
     def domain(self):
-        """conjunction of `P < c  implies  P < c'` for consecutive thresholds of one linear part"""
+        """conjunction of `P < c  implies  P < c'` for consecutive thresholds of one linear part, and of the interval
+        consequences of single-leaf thresholds for the linear parts over two or three of those leaves
+        (x < c1 and not y < c2  implies  x - y < c1 - c2, ...): bounds propagation, each conjunct is a valid
+        implication over the integers"""
         k = 1
         for P, d in self.thresholds.items():
             cs = sorted(d)
             for c1, c2 in zip(cs, cs[1:]):
                 k = self.b_and(k, self.b_or(self.b_not(d[c1]), d[c2]))
+        single = {}
+        for P, d in self.thresholds.items():
+            if len(P) == 1 and P[0][1] == 1:
+                single[P[0][0]] = d
+        for P, d in list(self.thresholds.items()):
+            if not 2 <= len(P) <= 3 or not all(t in single for t, _x in P):
+                continue
+            cells = []
+            n = 1
+            for t, x in P:
+                w = _width(self.node[t][1])
+                lo, hi = -(1 << (w - 1)), (1 << (w - 1)) - 1
+                cs = sorted(single[t])
+                edges = [lo] + cs + [hi + 1]
+                cl = []
+                for j in range(len(edges) - 1):
+                    a, b = edges[j], edges[j + 1] - 1          # the leaf lies in [a, b]
+                    if a > b:
+                        continue
+                    g = 1
+                    if j < len(cs):
+                        g = self.b_and(g, single[t][cs[j]])                      # below the j-th threshold
+                    if j > 0:
+                        g = self.b_and(g, self.b_not(single[t][cs[j - 1]]))      # not below the previous one
+                    cl.append((a * x, b * x, g) if x > 0 else (b * x, a * x, g))
+                cells.append(cl)
+                n *= len(cl)
+            if n > 200:
+                continue
+            combos = [(0, 0, 1)]
+            for cl in cells:
+                combos = [(lo + a, hi + b, self.b_and(g, g2)) for (lo, hi, g) in combos for (a, b, g2) in cl]
+            for lo, hi, g in combos:
+                if g == 0:
+                    continue
+                for th, v in d.items():
+                    if hi < th:
+                        k = self.b_and(k, self.b_or(self.b_not(g), v))
+                    elif lo >= th:
+                        k = self.b_and(k, self.b_or(self.b_not(g), self.b_not(v)))
         return k
 
 
